@@ -133,8 +133,21 @@ Definition atomic_cond (s : state) (hs : list ((str * str) * nat)) (r : req) : P
   lock_key r = None
   \/ exists k, lock_key r = Some k /\ (gearly s r = true \/ (holder_of hs k = None /\ reaches_yield s r = false)).
 
+(* why a step does nothing: no such thread, nothing left to do, or (never, under the lock
+   invariant) the thread itself already holds the key *)
+Definition idle_reason (st : gstate) (i : nat) : Prop :=
+  match nth_error (g_threads st) i with
+  | None => True
+  | Some th => match gt_todo th with
+               | [] => True
+               | r0 :: _ => gt_prog th = GNew
+                            /\ exists k, lock_key (freeze (g_store st) r0) = Some k
+                                         /\ holder_of (g_holders st) k = Some i
+               end
+  end.
+
 Inductive gstep_spec (st : gstate) (i : nat) : gstate -> outcome -> Prop :=
-| GS_idle : gstep_spec st i st OIdle
+| GS_idle : idle_reason st i -> gstep_spec st i st OIdle
 | GS_blocked th r0 rest k j :
     nth_error (g_threads st) i = Some th -> gt_todo th = r0 :: rest -> gt_prog th = GNew ->
     lock_key (freeze (g_store st) r0) = Some k -> gearly (g_store st) (freeze (g_store st) r0) = false ->
@@ -171,8 +184,8 @@ Inductive gstep_spec (st : gstate) (i : nat) : gstate -> outcome -> Prop :=
 Lemma gstep_spec_ok st i : gstep_spec st i (fst (gstep st i)) (snd (gstep st i)).
 Proof.
   unfold gstep.
-  destruct (nth_error (g_threads st) i) as [th|] eqn:Eth; [|apply GS_idle].
-  destruct (gt_todo th) as [|r0 rest] eqn:Etodo; [apply GS_idle|].
+  destruct (nth_error (g_threads st) i) as [th|] eqn:Eth; [|cbn [fst snd]; apply GS_idle; unfold idle_reason; rewrite Eth; exact I].
+  destruct (gt_todo th) as [|r0 rest] eqn:Etodo; [cbn [fst snd]; apply GS_idle; unfold idle_reason; rewrite Eth, Etodo; exact I|].
   destruct (gt_prog th) as [|cap] eqn:Eprog.
   - (* GNew *)
     set (s := g_store st). set (r := freeze s r0).
@@ -184,7 +197,8 @@ Proof.
         replace rsp with (effect_resp s (EHandle r)) by (cbn; rewrite Eh; reflexivity).
         eapply GS_atomic; eauto. right. exists k. auto.
       * destruct (holder_of (g_holders st) k) as [j|] eqn:Eho.
-        -- destruct (Nat.eqb_spec j i) as [Eji|Eji]; cbn [fst snd]; [apply GS_idle|].
+        -- destruct (Nat.eqb_spec j i) as [Eji|Eji]; cbn [fst snd];
+             [apply GS_idle; unfold idle_reason; rewrite Eth, Etodo; subst j; eauto|].
            eapply GS_blocked; eauto.
         -- destruct (reaches_yield s r) eqn:Ery.
            ++ cbn [fst snd]. eapply GS_at; eauto.
@@ -1361,3 +1375,217 @@ Definition c07_dup (d : bytes) : req := RUploadMedia c07_b c07_n [116]%N d (cp_l
 Definition c07_patch : req :=
   RPatch c07_b c07_n (mkPatch false (Some [120]%N) None None None None)
          (mkCP (PRaw []) (PRaw []) (PRaw (print_int 1)) (PRaw [])).
+
+(* ================================================================== *)
+(* 8. Item 4 with SYMBOLIC preconditions ("the generation I last saw"),  *)
+(*    frozen at each thread's first step                                *)
+
+Definition sym_cp (b n : str) : cparams := mkCP (PGen b n 0) (PRaw []) (PRaw []) (PRaw []).
+Definition sym_upload (b n : str) (r : req) : Prop := exists ct d, r = RUploadMedia b n ct d (sym_cp b n).
+
+Lemma freeze_sym b n g s r : has_gen b n g s -> sym_upload b n r -> gen_upload b n g (freeze s r).
+Proof.
+  intros [o [Hf [Hg _]]] [ct [d ->]]. exists ct, d. cbn [freeze]. unfold freeze_cp, sym_cp, cp_lit.
+  cbn [cp1 cp2 cp3 cp4 freeze_param resolve]. rewrite Hf, Hg, Z.add_0_r. reflexivity.
+Qed.
+
+Lemma idle_not_self st i th r rest : glock_inv st -> idle_reason st i ->
+  nth_error (g_threads st) i = Some th -> gt_todo th = r :: rest -> False.
+Proof.
+  intros Hinv Hid Hth Htodo. unfold idle_reason in Hid. rewrite Hth, Htodo in Hid.
+  destruct Hid as [Hp [k [_ Hho]]]. apply holder_of_some in Hho.
+  eapply not_holding_if_new; eauto. apply in_map_iff. exists (k, i). auto.
+Qed.
+
+Lemma done_resps_app a b : done_resps (a ++ b) = done_resps a ++ done_resps b.
+Proof. unfold done_resps. apply flat_map_app. Qed.
+
+Section Symbolic.
+  Variables (b n : str) (g : Z) (N : nat).
+
+  (* no request answered yet: every thread is untouched (symbolic head, not stepped) or has a
+     head frozen to the literal generation g *)
+  Definition sym_inv (st : gstate) (stepped : nat -> Prop) : Prop :=
+    glock_inv st /\ has_gen b n g (g_store st) /\ length (g_threads st) = N
+    /\ forall i th, nth_error (g_threads st) i = Some th ->
+         exists r, gt_todo th = [r]
+           /\ ((sym_upload b n r /\ gt_prog th = GNew /\ ~ stepped i) \/ gen_upload b n g r).
+
+  Lemma sym_inv_step st stepped j : sym_inv st stepped -> (forall rsp, snd (gstep st j) <> ODone rsp) ->
+    sym_inv (fst (gstep st j)) (fun i => i = j \/ stepped i).
+  Proof.
+    intros [Hinv [Hgen [Hlen Hth]]] Hnd.
+    pose proof (glock_inv_gstep st j Hinv) as Hinv'.
+    destruct (gstep_spec_ok st j) as [Hid|th r0 rest k j' Hn Htodo Hprog Hk Hearly Hho Hji
+                                         |th r0 rest k Hn Htodo Hprog Hk Hearly Hho Hry
+                                         |th r0 rest Hn Htodo Hprog Hat
+                                         |th r rest cap Hn Htodo Hprog];
+      try (exfalso; eapply Hnd; reflexivity).
+    - (* idle *)
+      split; [exact Hinv|]. split; [exact Hgen|]. split; [exact Hlen|].
+      intros i th Hi. destruct (Hth i th Hi) as [r [Ht Hr]]. exists r. split; [exact Ht|].
+      destruct Hr as [[Hs [Hp Hns]]|Hl]; [|right; exact Hl]. left. split; [exact Hs|]. split; [exact Hp|].
+      intros [->|H]; [|contradiction]. eapply idle_not_self; eauto.
+    - (* blocked *)
+      split; [exact Hinv'|]. split; [exact Hgen|]. split; [cbn [g_threads]; rewrite upd_nth_length; exact Hlen|].
+      intros i th' Hi. cbn [g_threads] in Hi. destruct (Nat.eq_dec i j) as [->|Hne].
+      + rewrite (nth_error_upd_same _ _ _ _ Hn) in Hi. injection Hi as <-.
+        destruct (Hth j th Hn) as [r [Ht Hr]]. rewrite Htodo in Ht. injection Ht as -> ->.
+        exists (freeze (g_store st) r). split; [reflexivity|]. right.
+        destruct Hr as [[Hs _]|Hl]; [eapply freeze_sym; eauto|apply gen_upload_freeze; exact Hl].
+      + rewrite nth_error_upd_other in Hi by exact Hne. destruct (Hth i th' Hi) as [r [Ht Hr]]. exists r.
+        split; [exact Ht|]. destruct Hr as [[Hs [Hp Hns]]|Hl]; [left|right; exact Hl].
+        repeat split; auto. intros [E|H]; [congruence|contradiction].
+    - (* the lock is taken *)
+      split; [exact Hinv'|]. split; [exact Hgen|]. split; [cbn [g_threads]; rewrite upd_nth_length; exact Hlen|].
+      intros i th' Hi. cbn [g_threads] in Hi. destruct (Nat.eq_dec i j) as [->|Hne].
+      + rewrite (nth_error_upd_same _ _ _ _ Hn) in Hi. injection Hi as <-.
+        destruct (Hth j th Hn) as [r [Ht Hr]]. rewrite Htodo in Ht. injection Ht as -> ->.
+        exists (freeze (g_store st) r). split; [reflexivity|]. right.
+        destruct Hr as [[Hs _]|Hl]; [eapply freeze_sym; eauto|apply gen_upload_freeze; exact Hl].
+      + rewrite nth_error_upd_other in Hi by exact Hne. destruct (Hth i th' Hi) as [r [Ht Hr]]. exists r.
+        split; [exact Ht|]. destruct Hr as [[Hs [Hp Hns]]|Hl]; [left|right; exact Hl].
+        repeat split; auto. intros [E|H]; [congruence|contradiction].
+  Qed.
+
+  Lemma sym_inv_weaken st (P Q : nat -> Prop) : (forall i, Q i -> P i) -> sym_inv st P -> sym_inv st Q.
+  Proof.
+    intros HPQ [H1 [H2 [H3 H4]]]. split; [exact H1|]. split; [exact H2|]. split; [exact H3|].
+    intros i th Hi. destruct (H4 i th Hi) as [r [Ht Hr]].
+    exists r. split; [exact Ht|]. destruct Hr as [[Hs [Hp Hns]]|Hl]; [left|right; exact Hl]. repeat split; auto.
+  Qed.
+
+  Lemma sym_inv_run pre : forall st stepped, sym_inv st stepped -> done_resps (snd (grun st pre)) = [] ->
+    sym_inv (fst (grun st pre)) (fun i => In i pre \/ stepped i).
+  Proof.
+    induction pre as [|j r IH]; intros st stepped H Hnd.
+    - cbn. eapply sym_inv_weaken; [|exact H]. cbn. tauto.
+    - rewrite grun_cons in *. cbn [fst snd] in *.
+      assert (Hj : forall rsp, snd (gstep st j) <> ODone rsp).
+      { intros rsp E. rewrite E in Hnd. cbn in Hnd. discriminate. }
+      assert (Hr : done_resps (snd (grun (fst (gstep st j)) r)) = []).
+      { destruct (snd (gstep st j)); cbn in Hnd; try exact Hnd. exfalso. eapply Hj. reflexivity. }
+      eapply sym_inv_weaken; [|apply (IH _ _ (sym_inv_step st stepped j H Hj) Hr)].
+      cbn. intros i [[<-|Hi]|Hi]; auto.
+  Qed.
+End Symbolic.
+
+(* N threads, one upload each of (b, n) conditioned on "the generation of (b, n) as I see it"
+   (PGen b n 0); every thread makes its first step (where the condition is frozen) before any
+   request is answered: exactly one 200, the others 412 *)
+Theorem exactly_one_conditional_writer_wins_symbolic s0 b n g (payloads : list (str * bytes)) pre post :
+  n <> [] -> 0 < g <= int64_max -> has_gen b n g s0 ->
+  let st := init_g s0 (map (fun cd => [RUploadMedia b n (fst cd) (snd cd) (sym_cp b n)]) payloads) in
+  (forall i, (i < length payloads)%nat -> In i pre) -> done_resps (snd (grun st pre)) = [] ->
+  all_done (fst (grun st (pre ++ post))) ->
+  map r_status (done_resps (snd (grun st (pre ++ post))))
+  = match length payloads with O => [] | S k => 200 :: repeat 412 k end.
+Proof.
+  intros Hn Hg Hgen st Hpre Hnd Hdone.
+  assert (H0 : sym_inv b n g (length payloads) st (fun _ => False)).
+  { split; [apply glock_inv_init|]. split; [exact Hgen|]. split; [cbn; rewrite !map_length; reflexivity|].
+    intros i th Hi. cbn in Hi. apply nth_error_In in Hi. apply in_map_iff in Hi. destruct Hi as [rs [<- Hin]].
+    apply in_map_iff in Hin. destruct Hin as [cd [<- _]]. eexists. split; [reflexivity|]. left.
+    split; [exists (fst cd), (snd cd); reflexivity|]. split; [reflexivity|tauto]. }
+  pose proof (sym_inv_run b n g (length payloads) pre st _ H0 Hnd) as [Hinv [Hgen1 [Hlen Hth]]].
+  set (st1 := fst (grun st pre)) in *.
+  assert (Hall : all_reqs (gen_upload b n g) st1).
+  { intros th Hin. apply In_nth_error in Hin. destruct Hin as [i Hi]. destruct (Hth i th Hi) as [r [Ht Hr]].
+    rewrite Ht. constructor; [|constructor]. destruct Hr as [[_ [_ Hns]]|Hl]; [|exact Hl].
+    exfalso. apply Hns. left. apply Hpre. rewrite <- Hlen. apply nth_error_Some. congruence. }
+  rewrite (grun_app st pre st post eq_refl) in *. cbn [fst snd] in *. fold st1 in Hdone |- *.
+  rewrite done_resps_app, Hnd. cbn [app].
+  rewrite (exactly_one_conditional_writer_wins_from st1 post b n g Hn Hg Hall Hgen1 Hdone).
+  assert (Hp : pending st1 = length payloads).
+  { pose proof (pending_grun pre st) as Hp. fold st1 in Hp.
+    rewrite Hnd in Hp. cbn [length] in Hp. rewrite Nat.add_0_r in Hp. rewrite <- Hp. unfold st.
+    rewrite pending_init. apply (list_sum_ones (fun cd => [RUploadMedia b n (fst cd) (snd cd) (sym_cp b n)])). reflexivity. }
+  rewrite Hp. reflexivity.
+Qed.
+
+Definition c07_sup (d : bytes) : req := RUploadMedia c07_b c07_n [116]%N d (sym_cp c07_b c07_n).
+
+(* ================================================================== *)
+(* 9. Where the requests of the linearisation come from                 *)
+
+(* thread i still has to serve the suffix [orig] of its program; its todo list is that suffix,
+   the head possibly with frozen preconditions (always frozen once parked at the yield) *)
+Definition todo_rel (orig todo : list req) (p : gprogress) : Prop :=
+  match orig, todo with
+  | [], [] => True
+  | r0 :: t, h :: t' => t = t' /\ (h = r0 \/ exists s, h = freeze s r0)
+                        /\ (p <> GNew -> exists s, h = freeze s r0)
+  | _, _ => False
+  end.
+
+Definition origin_inv (progs : list (list req)) (st : gstate) : Prop :=
+  forall i th, nth_error (g_threads st) i = Some th ->
+    exists served orig, nth_error progs i = Some (served ++ orig) /\ todo_rel orig (gt_todo th) (gt_prog th).
+
+Lemma origin_inv_init s0 progs : origin_inv progs (init_g s0 progs).
+Proof.
+  intros i th Hi. cbn in Hi. rewrite nth_error_map in Hi. destruct (nth_error progs i) as [rs|] eqn:E; [|discriminate].
+  injection Hi as <-. exists [], rs. split; [reflexivity|]. cbn. destruct rs; [exact I|].
+  split; [reflexivity|]. split; [left; reflexivity|]. intros H. congruence.
+Qed.
+
+Lemma frozen_again s r0 h : (h = r0 \/ exists s', h = freeze s' r0) -> exists s', freeze s h = freeze s' r0.
+Proof. intros [->|[s' ->]]; [exists s; reflexivity|exists s'; apply freeze_idem]. Qed.
+
+Lemma origin_inv_step progs st i st' o : origin_inv progs st -> gstep_spec st i st' o -> origin_inv progs st'.
+Proof.
+  intros Hinv Hs.
+  assert (Hupd : forall th todo' p', nth_error (g_threads st) i = Some th ->
+            (forall served orig, nth_error progs i = Some (served ++ orig) -> todo_rel orig (gt_todo th) (gt_prog th) ->
+               exists served' orig', nth_error progs i = Some (served' ++ orig') /\ todo_rel orig' todo' p') ->
+            origin_inv progs (mkGState (g_store st') (g_holders st') (upd_nth (g_threads st) i (mkGThread todo' p')))).
+  { intros th todo' p' Hth Hnew j thj Hj. cbn [g_threads] in Hj. destruct (Nat.eq_dec j i) as [->|Hne].
+    - rewrite (nth_error_upd_same _ _ _ _ Hth) in Hj. injection Hj as <-. cbn [gt_todo gt_prog].
+      destruct (Hinv i th Hth) as [served [orig [H1 H2]]]. eauto.
+    - rewrite nth_error_upd_other in Hj by exact Hne. apply Hinv. exact Hj. }
+  destruct Hs as [Hid|th r0 rest k j' Hn Htodo Hprog Hk Hearly Hho Hji
+                  |th r0 rest k Hn Htodo Hprog Hk Hearly Hho Hry
+                  |th r0 rest Hn Htodo Hprog Hat
+                  |th r rest cap Hn Htodo Hprog]; [exact Hinv|..].
+  - apply (Hupd th _ _ Hn). intros served orig H1 H2. rewrite Htodo in H2. destruct orig as [|q t]; [destruct H2|].
+    destruct H2 as [-> [Hf _]]. exists served, (q :: rest). split; [exact H1|]. cbn. split; [reflexivity|].
+    destruct (frozen_again (g_store st) q r0 Hf) as [s' E]. split; [right; eauto|intros _; eauto].
+  - apply (Hupd th _ _ Hn). intros served orig H1 H2. rewrite Htodo in H2. destruct orig as [|q t]; [destruct H2|].
+    destruct H2 as [-> [Hf _]]. exists served, (q :: rest). split; [exact H1|]. cbn. split; [reflexivity|].
+    destruct (frozen_again (g_store st) q r0 Hf) as [s' E]. split; [right; eauto|intros _; eauto].
+  - apply (Hupd th _ _ Hn). intros served orig H1 H2. rewrite Htodo in H2. destruct orig as [|q t]; [destruct H2|].
+    destruct H2 as [-> _]. exists (served ++ [q]), rest. split; [rewrite <- app_assoc; exact H1|].
+    cbn. destruct rest; [exact I|]. split; [reflexivity|]. split; [left; reflexivity|]. intros H. congruence.
+  - apply (Hupd th _ _ Hn). intros served orig H1 H2. rewrite Htodo in H2. destruct orig as [|q t]; [destruct H2|].
+    destruct H2 as [-> _]. exists (served ++ [q]), rest. split; [rewrite <- app_assoc; exact H1|].
+    cbn. destruct rest; [exact I|]. split; [reflexivity|]. split; [left; reflexivity|]. intros H. congruence.
+Qed.
+
+(* every request of the linearisation is a request of the thread's program, at the position its
+   identity says, with its preconditions frozen against SOME store of the run (the store at the
+   first step of the operation, by GS_blocked / GS_at / GS_atomic) *)
+Theorem glog_request_origin progs sched : forall st i L r, origin_inv progs st ->
+  In ((i, L), r) (glog_t st sched) ->
+  exists served r0 rest s, nth_error progs i = Some (served ++ r0 :: rest)
+    /\ length (r0 :: rest) = L /\ r = freeze s r0.
+Proof.
+  induction sched as [|j rest IH]; intros st i L r Hinv Hin; [destruct Hin|]. cbn [glog_t] in Hin.
+  apply in_app_or in Hin. destruct Hin as [Hin|Hin].
+  - destruct (step_effect st j) as [[q|b n o]|] eqn:E; [|destruct Hin|destruct Hin].
+    destruct Hin as [Hin|[]]. unfold op_of in Hin. injection Hin as -> <- ->.
+    apply step_effect_handle_req in E. destruct E as [p E]. unfold cur_req, todo_len in *.
+    destruct (nth_error (g_threads st) i) as [th|] eqn:Hth; [|discriminate].
+    destruct (Hinv i th Hth) as [served [orig [H1 H2]]].
+    destruct (gt_todo th) as [|h t]; [discriminate|]. destruct orig as [|r0 t0]; [destruct H2|].
+    destruct H2 as [-> [Hf Hh]]. injection E as <- <-.
+    destruct (gt_prog th) eqn:Ep.
+    + destruct (frozen_again (g_store st) r0 h Hf) as [s' Es]. exists served, r0, t, s'. auto.
+    + destruct (Hh ltac:(discriminate)) as [s' ->]. exists served, r0, t, s'. auto.
+  - eapply IH; [|exact Hin]. eapply origin_inv_step; eauto using gstep_spec_ok.
+Qed.
+
+Corollary glog_request_origin_init s0 progs sched i L r :
+  In ((i, L), r) (glog_t (init_g s0 progs) sched) ->
+  exists served r0 rest s, nth_error progs i = Some (served ++ r0 :: rest)
+    /\ length (r0 :: rest) = L /\ r = freeze s r0.
+Proof. apply glog_request_origin. apply origin_inv_init. Qed.
